@@ -30,7 +30,7 @@ PROP = {
   'future on a paused current-thread runtime, mirror of timeout_interval for the pe:<tick> event, copy of the '
   'create_conn codec glue over the scripted socket, copy of RecoverableBackendNode::send refusal handling',
   'tools/extract_backend.py (MAX_BACKEND_RETRY + shape guards of handle_conn_err / handle_conn / handle_backend, '
-  'including the connection-lifetime retry count of fix 0e64416)',
+  'including the connection-lifetime retry count of fix 0e64416 and the empty-queue early return of 24d4705)',
  ],
 }
 
@@ -53,7 +53,8 @@ CHECK = {
          'or Dropped. Never silence (C08_retry_bounded, after fix 0e64416 of finding F08b): the retry level is at most '
          'MAX_BACKEND_RETRY, never drops while a task is held and grows by one per connection failure, so a held '
          'request sees at most 1 + MAX_BACKEND_RETRY exchanges before the failure at the top level (or any time-out) '
-         'answers every held task with an error. Tied to the code by replaying, poll by poll, the events observed at the '
+         'answers every held task with an error; a failure with no held task carries no count over '
+         '(C08_idle_failure_keeps_budget, fix 24d4705). Tied to the code by replaying, poll by poll, the events observed at the '
          'ConnFactory/Sink/Stream boundary of the real handle_backend (byte-level scripted socket under the real '
          'RespCodec with arbitrary write capacity, reply fragmentation, stalls, break before/after any request or '
          'reply byte, refused connects, batching Disabled/Fixed/Dynamic, paused clock; packet-level Multi fan-out '
@@ -61,6 +62,6 @@ CHECK = {
          'requests, split writes, out-of-order completions, drops, double sends, half-close, idle time-out).',
  'note': 'Trusted: Lean kernel; model transliterations (checked differentially every run); harness event observation. '
          'At-least-once execution on retry is allowed by the property. backend_conn_num > 1 (round robin over '
-         'several BackendNodes) is outside the model. Finding F08b (unbounded retry) fixed in /repo by 0e64416; '
+         'several BackendNodes) is outside the model. Finding F08b (unbounded retry) fixed in /repo by 0e64416 + 24d4705; '
          'tools/extract_backend.py pins the repaired shape and corpus/C08/backend.f08b.ops is the regression case.',
 }
